@@ -256,7 +256,10 @@ class Gen:
             if not any(ty == INT for _, _, ty in sel):
                 c = r.choice(ints)
                 sel.append((("col", c[0], c[1], INT), f"d{len(sel) + 1}", INT))
-            sub = dict(base, sel=[(e, n) for e, n, _ in sel], dist=r.random() < 0.2)
+            # DISTINCT only over plain columns: a filter above a DISTINCT derived table with a computed column
+            # prunes that column away below the projection that still needs it (recorded finding F33)
+            plain = all(e[0] == "col" for e, _, _ in sel)
+            sub = dict(base, sel=[(e, n) for e, n, _ in sel], dist=plain and r.random() < 0.25)
             if r.random() < 0.4:
                 sub["where"] = self.bool_expr(iscope, None, 1)
         cols = [(n, ty) for _, n, ty in sel]
